@@ -103,13 +103,21 @@ AliasCases ==
        Case(SetU(<<A_("#a")>>, [k |-> "plus", l |-> PathOf(<<A_("#a")>>), r |-> Val(":v")]), it, Only({"#a"}), V1(Num(2))),
        Case([NoUpd EXCEPT !.set = <<[p |-> P("c"), v |-> PathOf(<<A_("#a")>>)]>>, !.remove = <<<<A_("#a")>>>>], it, Only({"#a"}), <<>>) }
        \cup { Case(DelU(<<A_("#a")>>, Val(":v")), Keep @@ [a |-> SSV], Only({"#a"}), V1(Mk("SS", <<<<99>>>>))) }
+\* attribute names and placeholders are case-sensitive in update expressions too, whatever ran before in the same process
+CaseCases ==
+  LET it == Keep @@ [a |-> Num(1), A |-> SAB, st |-> Num(5), St |-> Num(6)]
+  IN { Case(SetU(P(n), Val(":v")), it, <<>>, V1(Num(2))) : n \in {"a", "A", "st", "St", "ST"} }
+     \cup { Case(RemU(<<P(n)>>), it, <<>>, <<>>) : n \in {"a", "A", "ST"} }
+     \cup { Case(AddU(P(n), Val(":v")), it, <<>>, V1(Num(2))) : n \in {"st", "St", "sT"} }
+     \cup { Case(SetU(P("c"), Val(ph)), it, <<>>, [x \in {ph} |-> IF x = ":v" THEN Num(2) ELSE Num(3)]) : ph \in {":v", ":V"} }
+     \cup { Case(SetU(<<A_(ph)>>, Val(":v")), it, [x \in {ph} |-> IF x = "#n" THEN "a" ELSE "A"], V1(Num(2))) : ph \in {"#n", "#N"} }
 \* right-hand sides read the PRE-update item
 PreStateCases ==
      { Case([NoUpd EXCEPT !.set = <<[p |-> P("a"), v |-> Path("b")], [p |-> P("b"), v |-> Path("a")]>>], it, <<>>, <<>>) : it \in { x \in WithB : "a" \in DOMAIN x } }
   \cup { Case([NoUpd EXCEPT !.set = <<[p |-> P("kn"), v |-> [k |-> "plus", l |-> Path("kn"), r |-> Val(":v")]], [p |-> P("c"), v |-> Path("kn")]>>], Keep, <<>>, V1(Num(1))) }
   \cup { Case([NoUpd EXCEPT !.set = <<[p |-> P("c"), v |-> Path("ks")]>>, !.remove = <<P("ks")>>], Keep, <<>>, <<>>) }
 
-Cases == SharedOperandCases \cup SharedListCases \cup AliasCases \cup SetCases \cup NestedCases \cup RemoveCases \cup AddCases \cup DeleteCases \cup MultiCases \cup PreStateCases
+Cases == SharedOperandCases \cup SharedListCases \cup AliasCases \cup CaseCases \cup SetCases \cup NestedCases \cup RemoveCases \cup AddCases \cup DeleteCases \cup MultiCases \cup PreStateCases
 ASSUME \A c \in Cases : PrintT(ToJson(c))
 ASSUME PrintT(ToJson([kind |-> "count", n |-> Cardinality(Cases)]))
 VARIABLE dummy
